@@ -16,6 +16,8 @@ use serde_json::{json, Value};
 use std::cell::RefCell;
 use std::rc::Rc;
 
+static ANY_ERROR_ID: std::sync::atomic::AtomicBool = std::sync::atomic::AtomicBool::new(false);
+
 struct Machine {
     feed: Box<dyn FnMut(&Value, Time, &Conc)>,
     update: Box<dyn FnMut() -> NothingOrError<E>>,
@@ -459,7 +461,8 @@ fn replay(beh: &Value, line: usize, conc: &Conc, rep: &mut Report, structure_onl
         // compare with the prediction
         let exp = &st["out"];
         let ok = match (s(exp, "c"), &obs) {
-            ("err", Obs::Err(e)) => *e == i(exp, "e"),
+            // WHICH error is shown is C05's clause (and C11's); the numeric properties only need an error where one is due
+            ("err", Obs::Err(e)) => ANY_ERROR_ID.load(std::sync::atomic::Ordering::Relaxed) || *e == i(exp, "e"),
             ("none", Obs::Absent) => true,
             ("some", Obs::Present { t: tt, vals }) => {
                 let f = factors(kind, cmdk, conc);
@@ -902,6 +905,9 @@ fn main() {
     let only: Option<usize> = args.iter().position(|a| a == "--only").map(|p| args[p + 1].parse().unwrap());
     // --structure: compare outcome category, error identity, timestamp, twins and purity, not the numbers
     let structure_only = args.iter().any(|a| a == "--structure");
+    if args.iter().any(|a| a == "--any-error-id") {
+        ANY_ERROR_ID.store(true, std::sync::atomic::Ordering::Relaxed);
+    }
     // --skip-ewma-values: the build's power function is an approximation (micromath): EWMA numbers are not compared
     let skip_ewma = args.iter().any(|a| a == "--skip-ewma-values");
     let mut rep = Report::new();
